@@ -2,9 +2,8 @@
 From VLib Require Import CaseLib.
 From C07 Require Import Model.
 
-(* the code as it is now: all-token queued last (a28a3f7) and fetch guard (5d51c58) are in; a suicided proxyFrac still
-   dereferences nil in Info (reported, fingerprint suicided-proxy-nil-deref) *)
-Definition cur_ver : version := mkVer true true false.
+(* the code as it is now: all-token queued last (a28a3f7), fetch guard (5d51c58), suicided proxy answers Info (716fc27) *)
+Definition cur_ver : version := mkVer true true true.
 Definition nreaders : nat := 3.
 
 Inductive case :=
